@@ -36,10 +36,12 @@ THEOREMS = [
          "(run inp) the next column is the step function of column j and the vial's transition is one of the three; hs "
          "is discharged by C06's admissibility invariant, hence conditional on the monitored side condition of "
          "C06.run_admissible_partial (well-formed program, Stable range)", strength="partial"),
-    dict(name="Snow.C01.run_transition_of_range", clause="RUN level, unconditional: a recorded transition of a vial whose ice "
-         "fraction is in [0,1) is one of the three (no stability range, no side condition) — hence every transition out "
-         "of an ice-free column, and by C06 (until_first_nucleation / uncoupled / below_liquidus) every transition up to "
-         "the first column with ice, of uncoupled vials, of processes starting at or below the liquidus", strength="full"),
+    dict(name="Snow.C01.run_transition_of_range", clause="RUN level, no stability range and no side condition: for physically "
+         "valid parameters (ph.Valid), constants c = ph.consts and dt != 0, a recorded transition of a vial whose ice "
+         "fraction is in [0,1) is one of the three; the next column (or, after the last column, the final state) is the "
+         "step function of the column. (C06's run theorems supply sigma in [0,1) unconditionally up to the first column "
+         "with ice, for uncoupled vials and for processes starting at or below the liquidus; those compositions are not "
+         "stated as separate theorems.)", strength="full"),
     dict(name="Snow.C01.run_uses_shape", clause="a run whose parameters are built by Params.withShape (what the driver "
          "does for the configured arrangement and shape) uses, in every step and for every vial, the geometric heat "
          "flow of q_refines_shape, and its inter-vial heat cancels (heat_cancels_shape)", strength="full"),
